@@ -53,11 +53,12 @@ type verifUpTransport struct {
 	got       []byte
 	sawEOF    bool
 	outcome   int32 // 0 pending, 1 answered, 2 transport failure, 3 cancelled
+	readDone  chan struct{} // closed when the write loop has finished
 }
 
 func (t *verifUpTransport) Do(req *http.Request) (*http.Response, error) {
 	ctx := req.Context()
-	readDone := make(chan struct{})
+	readDone := t.readDone
 	go func() {
 		defer close(readDone)
 		for i := 0; t.maxReads < 0 || i < t.maxReads; i++ {
@@ -104,7 +105,7 @@ func (t *verifUpTransport) Do(req *http.Request) (*http.Response, error) {
 // goroutine is left behind.
 func VerifH_C18_Upload() {
 	vrt.GoroutineBaseline()
-	t := &verifUpTransport{bufSize: 1 + 3*vrt.Choose("server-buffer-4", 2)}
+	t := &verifUpTransport{bufSize: 1 + 3*vrt.Choose("server-buffer-4", 2), readDone: make(chan struct{})}
 	switch vrt.Choose("server-reads", 4) {
 	case 0:
 		t.maxReads = 0
@@ -159,6 +160,9 @@ func VerifH_C18_Upload() {
 		closeErr = w.Close()
 		vrt.Event("closed")
 		outcomeAtClose = atomic.LoadInt32(&t.outcome)
+		if outcomeAtClose != 0 {
+			<-t.readDone // the write loop ends once the body is closed
+		}
 	})
 	vrt.Assert(ok, "the upload terminates: Write and Close return")
 	if !ok {
